@@ -26,18 +26,18 @@ Fixpoint py_unquote_loop (s : str) (pb : list N) : str :=
   | c :: rest =>
       if 128 <=? c then flush_replace pb ++ c :: py_unquote_loop rest []
       else
-        let lit := let '(o, pb') := feed_replace pb c in o ++ py_unquote_loop rest pb' in
+        let lit (_ : unit) := let '(o, pb') := feed_replace pb c in o ++ py_unquote_loop rest pb' in
         if c =? 37 then
           match rest with
           | c1 :: c2 :: r =>
               match hexval c1, hexval c2 with
               | Some h1, Some h2 =>
                   let '(o, pb') := feed_replace pb (h1 * 16 + h2) in o ++ py_unquote_loop r pb'
-              | _, _ => lit
+              | _, _ => lit tt
               end
-          | _ => lit
+          | _ => lit tt
           end
-        else lit
+        else lit tt
   end.
 Definition py_unquote (s : str) : str := py_unquote_loop s [].
 
